@@ -508,6 +508,12 @@ def load_known_findings(prop):
     return out
 
 
+def kf_list(ctx):
+    """(finding id, extracted classifier) pairs of the open known findings of this
+    property, as listed in known_findings.txt (the committed file is the only source)"""
+    return [(f["id"], f["class"]) for f in getattr(ctx, "findings", []) if f.get("id") and f.get("class")]
+
+
 def write_replay(ctx, v, idx):
     os.makedirs(os.path.join(VERIF, "replays"), exist_ok=True)
     h = hashlib.sha256(json.dumps(v, sort_keys=True, default=str).encode()).hexdigest()[:10]
